@@ -25,14 +25,14 @@ MANIFEST = {
 
 # (cfg suffix, extra TLC args, workers)
 QUICK = [("A", [], 4), ("B", [], 4), ("C", [], 2)]
-THOROUGH = [("A", [], 4), ("B2", [], 8), ("C", [], 2), ("D", [], 8), ("E", [], 8)]
+THOROUGH = [("A", [], 4), ("B2", [], 8), ("C", [], 2), ("E", [], 8)]
 
 
 def behaviours(rep, seed, tier):
     """Mode M: model-check the machine; collect the behaviours TLC printed."""
     lines = set()
     runs = QUICK if tier == "quick" else THOROUGH
-    sim = ("S", ["-simulate", "num=%d" % (600 if tier == "quick" else 20000), "-depth", "13", "-seed", str(seed)], 1)
+    sim = ("S", ["-simulate", "num=%d" % (600 if tier == "quick" else 10000), "-depth", "13", "-seed", str(seed)], 1)
     exhaustive = {}
     for name, extra, workers in runs + [sim]:
         r = core.mc(rep, "mc/MC_FormatString.tla", "MC_FormatString_%s.cfg" % name, workers=workers, extra=extra,
@@ -99,8 +99,8 @@ def check(seed, tier):
                 "conversions or an escape followed by another token; distinct = distinct event hashes",
         "samples": meta_g["samples"] + meta_t["samples"][:1],
         "exhaustive": True,
-        "exhaustive_what": "all token sequences up to the instance's length over its alphabet (A: <=3, B: <=2, C: <=1%s); behaviours per instance: %s"
-                           % (", D: <=4, E: <=3" if tier != "quick" else "", json.dumps(exhaustive, sort_keys=True)),
+        "exhaustive_what": "all token sequences up to the instance's length over its alphabet (A: <=3, B/B2: <=2, C: <=1%s); behaviours per instance: %s"
+                           % (", E: <=3 over 68 tokens" if tier != "quick" else "", json.dumps(exhaustive, sort_keys=True)),
         "tlc_behaviours_replayed_into_impl": nbeh, "generated_strings": meta_g["events"],
         "mc_runs": rep.cov.get("mc_runs"), "trusted_base": TRUSTED,
     }, ["the grammar is the one of the property statement: '%' [one of + - # 0] [digits] ['.' digits] form, form one of the 45 listed "
